@@ -225,7 +225,8 @@ def model_expr(case, io=None):
         q = case['queries'][qi]
         args, nq = query_terms(q)
         qs.append('(%s, %s, %s)' % (g_str(q[0]), g_list([g_term(a) for a in args]), g_nat(nq)))
-    return '(%s %d %s %s %d)' % ('run_three_src' if case.get('three_views') else 'run_both_src', DEPTH, g_cps(cps(source_of(case))), g_list(qs), LIMIT)
+    # round 4: the *_lim entry points first ask the model compiler for its verdict "too large for Python" (Comp/Limits.v)
+    return '(%s %d %s %s %d)' % ('run_three_src_lim' if case.get('three_views') else 'run_both_src_lim', DEPTH, g_cps(cps(source_of(case))), g_list(qs), LIMIT)
 
 def model_views(mo):
     """[(ir_view, sld_view)] per query; a view is dict answers/count/err"""
@@ -245,11 +246,18 @@ def compare(case, io, mo):
         if 'rejected' in io:
             return None
         return 'the model front end rejects a source text that the implementation compiles'
-    if 'rejected' in io:
-        if io['rejected'] == 'CompilerError' and 'too large for Python' in (io.get('msg') or ''):
-            # the generated body needs more statically nested blocks than CPython compiles (D13): the compiler says so instead of
-            # emitting unloadable code.  That verdict is the subject of C11 (model: Comp/Limits.v); such a program has no answers to compare.
+    too_large = 'rejected' in io and io['rejected'] == 'CompilerError' and 'too large for Python' in (io.get('msg') or '')
+    if mo and mo[0] == 'too-large':
+        # round 4: the model compiler (compile_program + Comp/Limits.v py_limits) refuses the program: more than 20 statically nested
+        # blocks in an emitted function.  The implementation must refuse it too (D13) - a compiler that accepts it emits other code.
+        if too_large:
             return None
+        if 'rejected' in io:
+            return 'the compiler rejected a generated program: %s %s (the model compiler says: too large for Python)' % (io['rejected'], io.get('msg'))
+        return 'the implementation compiles a program that the model compiler refuses as too large for Python (more than 20 nested blocks)'
+    if 'rejected' in io:
+        if too_large:
+            return 'the implementation refuses a program as too large for Python that the model compiler accepts: %s' % (io.get('msg'),)
         return 'the compiler rejected a generated program: %s %s' % (io['rejected'], io.get('msg'))
     views = model_views(mo)
     idx = compared_queries(case, io)
